@@ -324,11 +324,11 @@ example :
 /-! non-vacuity: a scene with every event class, tags, ramp, flex tracks with and without
 direction, relative tag, inactive channel; its own pool. -/
 def sampleScene : Scene :=
-  let t : Tag := { name := [0x74], value := (127, 2) }
-  let fs : FlexSample := { time := 0x3F000000, value := (255, 2), c1 := 6, c2 := 15 }
+  let t : Tag := { name := [0x74], value := B64.decode 0x3FD0000000000000 }
+  let fs : FlexSample := { time := 0x3F000000, value := B64.decode 0x3FE0000000000000, c1 := 6, c2 := 15 }
   let ev (x : Extra) (n : Bytes) : Event :=
     { extra := x, name := n, start := 0x3F800000, stop := 0xBF800000, p1 := [0x70], p2 := [], p3 := n,
-      ramp := [{ time := 0, value := (3, 4) }], flags := 9, dist := 0, rel := [t], timing := [], absP := [t],
+      ramp := [{ time := 0, value := B64.decode 0x3FB999999999999A }], flags := 9, dist := 0, rel := [t], timing := [], absP := [t],
       absS := [], tagName := some [0x61], tagWav := none,
       flex := [{ name := [0x66], active := true, min := 0, max := 0x3F800000, mag := [fs], dir := some [fs, fs] },
                { name := [0x46], active := false, min := 0, max := 0, mag := [], dir := none }] }
@@ -336,7 +336,7 @@ def sampleScene : Scene :=
     actors := [{ name := [0x41], active := false,
                  channels := [{ name := [0x63], active := true,
                                 events := [ev (.loop (-1)) [], ev (.speak 2 [0x54] true false true) [0x73]] }] }],
-    ramp := [{ time := 1, value := (-1, 1) }, { time := 2, value := (1000, 1) }], ignorePhonemes := true }
+    ramp := [{ time := 1, value := B64.decode 0xBFF0000000000000 }, { time := 2, value := B64.decode 0x4024000000000000 }], ignorePhonemes := true }
 
 def samplePool : List Bytes := addAll [] (sceneStrs sampleScene)
 
